@@ -261,6 +261,11 @@ def gen_driver(sig, theory_name, module_text):
         E = e["name"]
         w("  out.push_str(%s); { out.push('['); let n = m.verif_alloc(%s); for id in 0..n as u32 { if id > 0 { out.push(','); } out.push_str(&case_json(%s, m, id, true)); } out.push(']'); }" % (
             rs_str(("," if i else "") + '"%s":' % E), rs_str(E), rs_str(E)))
+    w("  out.push_str(\"},\\\"case1\\\":{\");")
+    for i, e in enumerate(sig.enums.values()):
+        E = e["name"]
+        w("  out.push_str(%s); { out.push('['); let n = m.verif_alloc(%s); for id in 0..n as u32 { if id > 0 { out.push(','); } match std::panic::catch_unwind(std::panic::AssertUnwindSafe(|| case_json(%s, m, id, false))) { Ok(s) => out.push_str(&s), Err(_) => out.push_str(\"\\\"panic\\\"\") } } out.push(']'); }" % (
+            rs_str(("," if i else "") + '"%s":' % E), rs_str(E), rs_str(E)))
     w("  write!(out, \"}},\\\"truncated\\\":{}}}\", truncated).unwrap();")
     w("}")
     w(DRIVER_MAIN)
